@@ -116,6 +116,9 @@ pub fn check_trace(s: &Script, tr: &Trace, rep: &mut Report) -> Outcome {
     let mut false_if_present_ids: HashSet<u64> = HashSet::new();
     // metric shadows since the last clear
     let (mut m_lookups, mut m_dropped_sets, mut m_pop_rejects, mut m_pushed_keys) = (0u64, 0u64, 0u64, 0u64);
+    // C11 "counters restart from zero and the cache behaves like a fresh one": conservation (C17) that held at
+    // every record up to the first clear() and fails after one is (also) a defect of clear()
+    let (mut cleared_once, mut conservation_failed_before_clear) = (false, false);
     let mut tracked: HashMap<u64, u64> = HashMap::new(); // index -> admission instant (life expectancy)
     let mut hist_expect: BTreeMap<usize, i64> = BTreeMap::new();
     let mut charges_in_domain = true;
@@ -360,6 +363,7 @@ pub fn check_trace(s: &Script, tr: &Trace, rep: &mut Report) -> Outcome {
                 }
                 Step::Clear => {
                     out.clears += 1;
+                    cleared_once = true;
                     for e in slots.values() {
                         cleared_ids.insert(e.id);
                     }
@@ -847,6 +851,15 @@ pub fn check_trace(s: &Script, tr: &Trace, rep: &mut Report) -> Outcome {
                 }
                 if cadd.wrapping_sub(cev) != o.snap.used as u64 {
                     fail!("C17", "metrics/cost-added-minus-evicted", "cost_added {cadd} - cost_evicted {cev} != used {}", o.snap.used);
+                }
+                if kadd.wrapping_sub(kev) != policy.len() as u64 || cadd.wrapping_sub(cev) != o.snap.used as u64 {
+                    if !cleared_once {
+                        conservation_failed_before_clear = true;
+                    } else if !conservation_failed_before_clear {
+                        also!("C11", "clear/conservation-lost-after-clear", format!("keys_added {kadd} - keys_evicted {kev} vs {} charged entries, cost_added {cadd} - cost_evicted {cev} vs used {}: the balances held at every record before the first clear() and fail after it: the cleared cache does not count like a fresh one", policy.len(), o.snap.used));
+                    }
+                } else if cleared_once {
+                    rep.count("c11_conservation_checks_after_a_clear");
                 }
             }
             if sdrop != m_dropped_sets {
